@@ -212,7 +212,7 @@ class C10(Prop):
         trigger = FF_INDENT.search(code) is not None
         try:
             if len(code) % 2:
-                disturb(grammar(v), case_int(code, v))      # process history: an earlier abandoned / aborted call (common.disturb)
+                disturb(grammar(v), case_int(code, v), code)      # process history: an earlier abandoned / aborted call (common.disturb)
             a, prefixes = parso_sig(code, v)
         except RecursionError:
             return Outcome(excluded='recursion-limit')
